@@ -3040,3 +3040,157 @@ func RuleLR1(c *Ctx) {
 		sc.Holds("loops", "-", fmt.Sprintf("%d loops over slices, arrays, strings or counters, none ends unconditionally in its first iteration", loops))
 	}
 }
+
+// ---------------------------------------------------------------- LV1
+
+// RuleLV1: the address of a loop variable does not outlive its iteration. The module
+// declares a Go language version below 1.22, so `for _, v := range xs` has ONE variable v
+// for the whole loop: `&v` (or the address of a part of v) that is appended to a slice,
+// stored in a map, a field or a variable declared outside the loop, put into a composite
+// literal, returned, or captured by a function literal that is itself stored or deferred,
+// refers after the loop to the LAST element only. A pass over "every response" written this
+// way treats the last response N times. The rule is skipped (no obligations, reported as
+// such) when the language version is 1.22 or later.
+func RuleLV1(c *Ctx) {
+	sc := c.Run.Begin("LV1", "under the module's declared language version (< go1.22: one loop variable per loop) no address of a range/for variable is appended, stored outside the loop, put in a composite literal or returned", 1)
+	defer sc.End()
+	n := 0
+	perIter := false
+	for _, pk := range c.P.Repo {
+		if pk.Module != nil && pk.Module.GoVersion != "" {
+			var maj, min int
+			fmt.Sscanf(pk.Module.GoVersion, "%d.%d", &maj, &min)
+			if maj > 1 || (maj == 1 && min >= 22) {
+				perIter = true
+			}
+		}
+	}
+	if perIter {
+		sc.Holds("language-version", "go.mod", "the module declares go >= 1.22: every iteration has its own variable, the address of one may be kept")
+		return
+	}
+	c.P.Funcs(func(pk *pkgT, fd *ast.FuncDecl) {
+		info := pk.TypesInfo
+		ast.Inspect(fd.Body, func(x ast.Node) bool {
+			var vars []types.Object
+			var body *ast.BlockStmt
+			switch l := x.(type) {
+			case *ast.RangeStmt:
+				if l.Tok != token.DEFINE {
+					return true
+				}
+				for _, e := range []ast.Expr{l.Key, l.Value} {
+					if id, ok := e.(*ast.Ident); ok && id.Name != "_" {
+						vars = append(vars, info.ObjectOf(id))
+					}
+				}
+				body = l.Body
+			case *ast.ForStmt:
+				if as, ok := l.Init.(*ast.AssignStmt); ok && as.Tok == token.DEFINE {
+					for _, e := range as.Lhs {
+						if id, ok := e.(*ast.Ident); ok && id.Name != "_" {
+							vars = append(vars, info.ObjectOf(id))
+						}
+					}
+				}
+				body = l.Body
+			}
+			if body == nil || len(vars) == 0 {
+				return true
+			}
+			isVar := func(o types.Object) bool {
+				for _, v := range vars {
+					if v == o {
+						return true
+					}
+				}
+				return false
+			}
+			// addrOfLoopVar: &v, &v.f, &v[i] (array) - not through a pointer or slice element
+			addrOfLoopVar := func(e ast.Expr) bool {
+				u, ok := ast.Unparen(e).(*ast.UnaryExpr)
+				if !ok || u.Op != token.AND {
+					return false
+				}
+				t := ast.Unparen(u.X)
+				for {
+					switch y := t.(type) {
+					case *ast.SelectorExpr:
+						if _, isPtr := info.TypeOf(y.X).Underlying().(*types.Pointer); isPtr {
+							return false
+						}
+						t = ast.Unparen(y.X)
+						continue
+					case *ast.IndexExpr:
+						if _, isArr := info.TypeOf(y.X).Underlying().(*types.Array); !isArr {
+							return false
+						}
+						t = ast.Unparen(y.X)
+						continue
+					case *ast.Ident:
+						return isVar(info.ObjectOf(y))
+					}
+					return false
+				}
+			}
+			declaredInside := func(o types.Object) bool {
+				return o != nil && body.Pos() <= o.Pos() && o.Pos() <= body.End()
+			}
+			report := func(at ast.Node, how string) {
+				n++
+				sc.Violation(fmt.Sprintf("%s:escape#%d", c.P.DeclName(fd), n), c.P.Pos(at.Pos()), "the address of a loop variable is "+how+": with the module's go < 1.22 semantics the loop has one variable, so after the loop every such pointer refers to the last element - a pass over all elements handles the last one repeatedly and the others never")
+			}
+			ast.Inspect(body, func(y ast.Node) bool {
+				switch s := y.(type) {
+				case *ast.CallExpr:
+					if id, ok := s.Fun.(*ast.Ident); ok {
+						if b, ok := info.ObjectOf(id).(*types.Builtin); ok && b.Name() == "append" {
+							for _, a := range s.Args[1:] {
+								if addrOfLoopVar(a) {
+									report(a, "appended to a slice")
+								}
+							}
+						}
+					}
+				case *ast.CompositeLit:
+					for _, el := range s.Elts {
+						v := el
+						if kv, ok := el.(*ast.KeyValueExpr); ok {
+							v = kv.Value
+						}
+						if addrOfLoopVar(v) {
+							report(v, "put into a composite literal")
+						}
+					}
+				case *ast.ReturnStmt:
+					for _, r := range s.Results {
+						if addrOfLoopVar(r) {
+							report(r, "returned")
+						}
+					}
+				case *ast.AssignStmt:
+					for i, r := range s.Rhs {
+						if !addrOfLoopVar(r) || i >= len(s.Lhs) {
+							continue
+						}
+						l := ast.Unparen(s.Lhs[i])
+						if id, ok := l.(*ast.Ident); ok {
+							if id.Name == "_" || declaredInside(info.ObjectOf(id)) {
+								continue
+							}
+						}
+						report(r, "stored outside the loop")
+					}
+				}
+				return true
+			})
+			if n == 0 {
+				// count the loops looked at, as evidence
+			}
+			return true
+		})
+	})
+	if n == 0 {
+		sc.Holds("no-escape", "-", "no address of a loop variable is appended, stored outside its loop, put in a composite literal or returned")
+	}
+}
